@@ -121,7 +121,7 @@ where C: FullDuplexUniChannel<ItemType = Tok, DerivedItemType = D> + Send + Sync
 
 // ------------------------------------------------------------------------------------------------ multi
 
-async fn multi_case<C, D>(pipelines: usize, limit: u32, execs: Vec<u8>, with_timeout: bool, events: Vec<u8>, cancel_after: usize, paused: bool, ledger: Arc<Ledger>, close_timeout_ms: u64) -> Vec<(String, String)>
+async fn multi_case<C, D>(pipelines: usize, limit: u32, execs: Vec<u8>, with_timeout: bool, events: Vec<u8>, cancel_after: usize, paused: bool, ledger: Arc<Ledger>, close_timeout_ms: u64, recancel: bool) -> Vec<(String, String)>
 where C: FullDuplexMultiChannel<ItemType = Tok, DerivedItemType = D> + Send + Sync + 'static, D: EvId + Send + Sync + std::fmt::Debug + 'static {
     static SEQ: AtomicU64 = AtomicU64::new(0);
     let name = format!("rmv-c12-{}-{}", std::process::id(), SEQ.fetch_add(1, SeqCst));
@@ -144,18 +144,39 @@ where C: FullDuplexMultiChannel<ItemType = Tok, DerivedItemType = D> + Send + Sy
         }.expect("spawn");
     }
     let mut p = Vec::new();
+    // `recancel`: pipeline 0 is removed with a deadline of 1 ms (which may expire while it is busy); two events later, once it has ended, new pipelines are spawned
+    // until every stream id is in use again (so one of them got pipeline 0's), and "pipeline 0" is cancelled a second time: that name no longer exists, nobody
+    // may be disturbed -- the late pipelines process everything sent from then on and get their close callback at the close, not before
+    let mut late: Vec<(String, Arc<AtomicU32>, u32)> = Vec::new();      // (name, events processed, events sent after its creation)
     for e in 0..ne as u64 {
         if e as usize == cancel_after {
             // pipeline 0 is removed on its own; everybody else goes on
-            if !multi.flush_and_cancel_executor("pipeline 0", Duration::ZERO).await { p.push(("cancel_executor".into(), "flush_and_cancel_executor answered false for a pipeline that exists".into())) }
+            if recancel { let _ = multi.flush_and_cancel_executor("pipeline 0", Duration::from_millis(1)).await; }
+            else if !multi.flush_and_cancel_executor("pipeline 0", Duration::ZERO).await { p.push(("cancel_executor".into(), "flush_and_cancel_executor answered false for a pipeline that exists".into())) }
         }
-        let mut tries = 0; loop { if multi.send(Tok::make(e)).is_ok() { break } tries += 1; if tries > 40 { break } tokio::time::sleep(Duration::from_millis(1)).await }
+        if recancel && e as usize == cancel_after + 2 {
+            for _ in 0..2000 { if cb.calls.lock().unwrap().iter().any(|c| c.0 == "pipeline 0") { break } tokio::time::sleep(Duration::from_millis(1)).await }
+            if cb.calls.lock().unwrap().iter().any(|c| c.0 == "pipeline 0") {
+                for i in 0..(4 - pipelines + 1) {
+                    let (name, cnt, cb2, l2) = (format!("late pipeline {i}"), Arc::new(AtomicU32::new(0)), cb.clone(), ledger.clone());
+                    let (c2, who) = (cnt.clone(), name.clone());
+                    let on_close = move |stats: Arc<dyn StreamExecutorStats + Send + Sync>| async move { cb2.record(&who, &stats, &l2) };
+                    multi.spawn_non_futures_non_fallible_executor(1, name.clone(), move |s| s.map(move |d: D| { c2.fetch_add(1, SeqCst); d.ev() as u32 }), on_close).await.expect("spawn");
+                    late.push((name, cnt, 0));
+                }
+                let _ = multi.flush_and_cancel_executor("pipeline 0", Duration::ZERO).await;
+            }
+        }
+        let mut tries = 0; loop { if multi.send(Tok::make(e)).is_ok() { for l in late.iter_mut() { l.2 += 1 } break } tries += 1; if tries > 40 { break } tokio::time::sleep(Duration::from_millis(1)).await }
     }
     if cancel_after >= ne { let _ = multi.flush_and_cancel_executor("pipeline 0", Duration::ZERO).await; }
     // a close whose deadline expires gives up waiting (and says so); the executors still end -- each with its one close callback, in an 'ended' state -- once their
     // streams, told to end, have run dry
+    for _ in 0..5 { tokio::time::sleep(Duration::from_millis(1)).await }
+    let before_close = cb.calls.lock().unwrap().clone();
     let closed = multi.close(Duration::from_millis(close_timeout_ms)).await;
-    for _ in 0..if close_timeout_ms > 0 { 4000 } else { 200 } { if cb.calls.lock().unwrap().len() >= pipelines { break } tokio::time::sleep(Duration::from_millis(1)).await }
+    for l in &late { if before_close.iter().any(|c| c.0 == l.0) { p.push(("other_pipeline_disturbed".into(), format!("{}, spawned after 'pipeline 0' had ended (and holding a recycled stream id), got its close callback before the Multi was closed: cancelling the name 'pipeline 0' a second time ended it", l.0))) } }
+    for _ in 0..if close_timeout_ms > 0 { 4000 } else { 200 } { if cb.calls.lock().unwrap().len() >= pipelines + late.len() { break } tokio::time::sleep(Duration::from_millis(1)).await }
     for _ in 0..20 { tokio::time::sleep(Duration::from_millis(1)).await }
     let calls = cb.calls.lock().unwrap().clone();
     for pl in 0..pipelines {
@@ -170,6 +191,11 @@ where C: FullDuplexMultiChannel<ItemType = Tok, DerivedItemType = D> + Send + Sy
     }
     // the pipelines that were not removed received everything, also what was sent after the removal
     let st = ledger.state.lock().unwrap().clone();
+    for l in &late {
+        let n = cb.calls.lock().unwrap().iter().filter(|c| c.0 == l.0).count();
+        if n != 1 { p.push(("callback_count".into(), format!("{}: the close callback was invoked {n} time(s)", l.0))) }
+        if closed && l.1.load(SeqCst) != l.2 { p.push(("other_pipeline_disturbed".into(), format!("{} processed {} of the {} events sent after it was spawned", l.0, l.1.load(SeqCst), l.2))) }
+    }
     if !closed && close_timeout_ms > 0 { p.push(("close_deadline_expired(not a problem)".into(), String::new())) }
     else { for pl in 1..pipelines { let missing = (0..ne).filter(|e| st[pl * ne + e] != 2).count(); if missing > 0 { p.push(("other_pipeline_disturbed".into(), format!("pipeline {pl}, which was not removed, did not process {missing} of the {ne} events"))) } } }
     p
@@ -275,16 +301,19 @@ fn others(args: &Args, acc: &mut Acc, seed: u64, verbose: bool) {
             let (ev, l) = (events.clone(), ledger.clone());
             // 1 run in 4: the final close has a deadline of a few milliseconds
             let ct = if rng.chance(1, 4) { 1 + rng.below(20) } else { 0 };
+            // 1 run in 4 of the others: pipeline 0 is removed with a deadline, its id recycled by later pipelines, its name cancelled again
+            let recancel = ct == 0 && cancel_after + 2 < events.len() && rng.chance(1, 3);
             let r = match kind {
-                "multi.arc.full_sync" => tk::run(rt, wd, move || multi_case::<ChannelMultiArcFullSync<Tok, N, 4>, Arc<Tok>>(pipelines, limit, ex2, with_timeout, ev, cancel_after, paused, l, ct)),
-                "multi.arc.crossbeam" => tk::run(rt, wd, move || multi_case::<ChannelMultiArcCrossbeam<Tok, N, 4>, Arc<Tok>>(pipelines, limit, ex2, with_timeout, ev, cancel_after, paused, l, ct)),
-                "multi.ogre_arc.atomic" => tk::run(rt, wd, move || multi_case::<ChannelMultiOgreArcAtomic<Tok, N, 4>, OgreArc<Tok, AllocatorAtomicArray<Tok, N>>>(pipelines, limit, ex2, with_timeout, ev, cancel_after, paused, l, ct)),
-                _ => tk::run(rt, wd, move || multi_case::<ChannelMultiMmapLog<Tok, 4>, &'static Tok>(pipelines, limit, ex2, with_timeout, ev, cancel_after, paused, l, ct)),
+                "multi.arc.full_sync" => tk::run(rt, wd, move || multi_case::<ChannelMultiArcFullSync<Tok, N, 4>, Arc<Tok>>(pipelines, limit, ex2, with_timeout, ev, cancel_after, paused, l, ct, recancel)),
+                "multi.arc.crossbeam" => tk::run(rt, wd, move || multi_case::<ChannelMultiArcCrossbeam<Tok, N, 4>, Arc<Tok>>(pipelines, limit, ex2, with_timeout, ev, cancel_after, paused, l, ct, recancel)),
+                "multi.ogre_arc.atomic" => tk::run(rt, wd, move || multi_case::<ChannelMultiOgreArcAtomic<Tok, N, 4>, OgreArc<Tok, AllocatorAtomicArray<Tok, N>>>(pipelines, limit, ex2, with_timeout, ev, cancel_after, paused, l, ct, recancel)),
+                _ => tk::run(rt, wd, move || multi_case::<ChannelMultiMmapLog<Tok, 4>, &'static Tok>(pipelines, limit, ex2, with_timeout, ev, cancel_after, paused, l, ct, recancel)),
             };
             acc.count("multi_runs", 1); for e in &execs { acc.count(&format!("multi_pipelines[executor: {}]", EXEC_NAMES[*e as usize]), 1) }
-            let cfg = J::obj().with("executors", J::s(format!("{:?}", execs.iter().map(|e| EXEC_NAMES[*e as usize]).collect::<Vec<_>>()))).with("futures_timeout_set", J::Bool(with_timeout)).with("channel", J::s(kind)).with("pipelines", J::i(pipelines as i64)).with("concurrency_limit", J::i(limit as i64)).with("runtime", J::s(rt.describe())).with("per_event_sleep", J::s(format!("{:?}", events))).with("pipeline_0_removed_before_event", J::i(cancel_after as i64)).with("final_close_deadline_ms(0 = none)", J::i(ct as i64));
+            let cfg = J::obj().with("executors", J::s(format!("{:?}", execs.iter().map(|e| EXEC_NAMES[*e as usize]).collect::<Vec<_>>()))).with("futures_timeout_set", J::Bool(with_timeout)).with("channel", J::s(kind)).with("pipelines", J::i(pipelines as i64)).with("concurrency_limit", J::i(limit as i64)).with("runtime", J::s(rt.describe())).with("per_event_sleep", J::s(format!("{:?}", events))).with("pipeline_0_removed_before_event", J::i(cancel_after as i64)).with("final_close_deadline_ms(0 = none)", J::i(ct as i64)).with("pipeline_0_removed_with_a_1ms_deadline_then_its_id_recycled_and_its_name_cancelled_again", J::Bool(recancel));
             match r { None => { acc.inconclusive += 1; acc.count("inconclusive_watchdog", 1) } Some(mut p) => { acc.nontrivial(mix(seed, 77));
                 if ct > 0 { acc.count("multi_runs_closed_with_a_deadline", 1) }
+                if recancel { acc.count("multi_runs_in_which_a_removed_pipeline's_name_is_cancelled_again_after_its_stream_id_was_recycled", 1) }
                 let before = p.len(); p.retain(|x| !x.0.starts_with("close_deadline_expired")); if p.len() != before { acc.count("multi_runs_whose_close_deadline_expired_with_executors_still_busy", 1) } acc.sample(2, || cfg.clone()); report(args, acc, seed, verbose, "multi", cfg, p) } }
         }
         _ => {
